@@ -192,6 +192,52 @@ def _function_name(sig):
     return head.split()[-1] if head else ""
 
 
+class FuzzWorker(Worker):
+    """a libFuzzer job: runs are bounded by -runs=N; a crash leaves an artifact that is decoded into a monitor witness"""
+
+    def cmd(self, extra=None):
+        self.art = os.path.join(self.tmp, "%s_art_" % self.tag)
+        c = [self.exe, "-runs=%d" % max(1, self.cases // self.nshards), "-seed=%d" % (self.seed * 1000 + self.shard + 1),
+             "-max_len=%d" % self.job.get("max_len", 600), "-timeout=%d" % self.job.get("input_timeout", 60), "-rss_limit_mb=4096",
+             "-malloc_limit_mb=2048", "-print_final_stats=1", "-artifact_prefix=" + self.art, "-verbosity=1", "-len_control=20"]
+        return c + (extra or [])
+
+    def run_all(self, timeout, max_restarts=0):
+        self.crashes, self.all_records = [], []
+        self.run(timeout)
+        txt = self.stderr_text(400000)
+        m = re.search(r"stat::number_of_executed_units:\s*(\d+)", txt)
+        execs = int(m.group(1)) if m else 0
+        covs = [int(x) for x in re.findall(r" cov: (\d+) ", txt)]
+        fts = [int(x) for x in re.findall(r" ft: (\d+) ", txt)]
+        corp = [int(x) for x in re.findall(r" corp: (\d+)/", txt)]
+        if self.timed_out:
+            return self
+        arts = [os.path.join(self.tmp, f) for f in os.listdir(self.tmp) if f.startswith(os.path.basename(self.art))]
+        if self.rc != 0 or arts:
+            witness = ""
+            rep = None
+            if arts:
+                witness = os.path.join(REPLAY, "%s_fuzz_s%d_%s.txt" % (self.job["mon"], self.seed, self.tag))
+                e = self.env()
+                e["VF_DUMP_CASE"] = witness
+                with open(self.err + ".repro", "w") as ef:
+                    try:
+                        p = subprocess.run([self.exe, arts[0]], stdout=ef, stderr=subprocess.STDOUT, env=e, timeout=600)
+                        rc2, to2 = p.returncode, False
+                    except subprocess.TimeoutExpired:
+                        rc2, to2 = None, True
+                with open(self.err + ".repro", errors="replace") as f:
+                    txt2 = f.read()[-20000:]
+                rep = (witness if os.path.exists(witness) else "", rc2, txt2, to2, [])
+            self.crashes.append((0, self.rc, txt[-20000:], rep))
+        self.all_records.append({"t": "stats", "evaluations": execs, "distinct": [], "violations": 0,
+                                 "counters": {"fuzz_executions": execs, "max_fuzz_cov_edges": max(covs) if covs else 0,
+                                              "max_fuzz_features": max(fts) if fts else 0, "max_fuzz_corpus_units": max(corp) if corp else 0},
+                                 "samples": []})
+        return self
+
+
 def classify_crash(text, rc):
     """Classifier tags for a crashed worker: report kind + first Clipper2Lib frame."""
     kind = "signal_%s" % (-rc if rc is not None and rc < 0 else rc)
@@ -220,6 +266,10 @@ def classify_crash(text, rc):
     elif "terminate called" in text:
         m4 = re.search(r"instance of '([^']+)'", text)
         kind = "uncaught_" + (m4.group(1) if m4 else "exception")
+    elif "libFuzzer: timeout" in text:
+        kind = "fuzz_timeout"
+    elif "libFuzzer: out-of-memory" in text:
+        kind = "fuzz_out_of_memory"
     elif "VF-WATCHDOG" in text:
         m5 = re.search(r"VF-WATCHDOG (\w+)", text)
         kind = "watchdog_" + (m5.group(1) if m5 else "x")
@@ -433,8 +483,9 @@ def run_property(prop, tier, seed, replay=None):
                 nsh = NCPU
             nsh = max(1, min(nsh, cases))
             for s in range(nsh):
-                workers.append(Worker(j, exes[(j["cfg"], j["mon"])], s, nsh, cases, seed + j.get("seed_off", 0), tier, tmp,
-                                      "j%d_s%d" % (ji, s)))
+                cls = FuzzWorker if j["cfg"] == "fuzz" else Worker
+                workers.append(cls(j, exes[(j["cfg"], j["mon"])], s, nsh, cases, seed + j.get("seed_off", 0), tier, tmp,
+                                   "j%d_s%d" % (ji, s)))
         tmo = pdef.get("timeout", {}).get(tier, 1500 if tier == "quick" else 7200)
 
         def go(w):
